@@ -77,6 +77,8 @@ def run_one(rng, counters):
                 new.append(r)
                 if r.get("kind") == "snv" and len(r["ref"]) == 1 and rng.random() < 0.15:
                     other = rng.choice([b for b in "ACGT" if b not in (r["ref"], r["alts"][0])])
+                    if rng.random() < 0.4:
+                        other = r["ref"] + other + rng.choice(["", "A", "GT"])  # the second record of the position is an insertion
                     calls = []
                     for call in r["calls"]:
                         if "|" in call["GT"]:
